@@ -13,6 +13,7 @@ Decided statically:
  R5 count = cells: every make_cell_writer() result is consumed by a serialize / set_* call.
 Not decided: error kinds and messages; third-party impls; byte-level equality (C01).
 """
+from ..inline import inline_view
 from ..mir import AnchorLost
 from ..util import df_of, fn_short, in_set, uses_of_local, operand_path, path_last, backward_slice
 from ..shapes import Accept, SV, DV, impl_method, all_shapes
@@ -399,7 +400,7 @@ def switch_edges_local(b, bb):
 
 
 def check(ctx):
-    facts = ctx.facts("default")
+    facts = inline_view(ctx.facts("default"))
     config = ctx.alias.get("default", "default")   # the thorough tier re-runs this module over `full` and `unstable`
     for fn in (lambda c, f: r1_r2(c, f, config), r3, r4, r5, r6):
         try:
